@@ -308,4 +308,115 @@ pub proof fn lemma_build_kids_len(s: GEl, p: Seq<RdItem>, known: Seq<String>)
     }
 }
 
+pub proof fn lemma_g_has_witness(kids: Seq<Necessity<GEl>>, m: String, k: int)
+    requires 0 <= k < kids.len(), kids[k].val().name == m,
+    ensures g_has(kids, m),
+    decreases kids.len()
+{
+    if kids[0].val().name != m {
+        let t = kids.drop_first();
+        assert(t[k - 1] == kids[k]);
+        lemma_g_has_witness(t, m, k - 1);
+    }
+}
+pub proof fn lemma_g_has_index(kids: Seq<Necessity<GEl>>, m: String)
+    ensures 0 <= g_idx(kids, m) <= kids.len(), g_has(kids, m) ==> kids[g_idx(kids, m)].val().name == m,
+    decreases kids.len()
+{
+    if kids.len() > 0 && kids[0].val().name != m { lemma_g_has_index(kids.drop_first(), m); }
+}
+/// one tag: the child names of the node survive (the child called like the tag is taken out and put back)
+pub proof fn lemma_parse_tag_names(s: GEl, t: Tag, known: Seq<String>, content: Option<Seq<RdItem>>, m: String)
+    ensures g_parse_tag(s, t, known, content).0 is Some && g_has(s.kids, m) ==> g_has(g_parse_tag(s, t, known, content).0->Some_0.kids, m),
+{
+    let r = g_parse_tag(s, t, known, content);
+    if r.0 is Some && g_has(s.kids, m) {
+        let n = utf8_str(t.name);
+        let i = g_idx(s.kids, n);
+        lemma_g_has_index(s.kids, n);
+        lemma_g_has_index(s.kids, m);
+        let j = g_idx(s.kids, m);
+        let na = mand_decode(t.attrs);
+        let base = if i < s.kids.len() {
+            let c = s.kids[i].val();
+            GEl { attrs: spec_merge(c.attrs, na), standalone: c.standalone && !known.contains(n), count: sat_inc(c.count), ..c }
+        } else {
+            GEl { name: n, text_some: false, standalone: !known.contains(n), count: 1, attrs: na, kids: Seq::empty(), position: None }
+        };
+        let rest_kids = if i < s.kids.len() { s.kids.remove(i) } else { s.kids };
+        let k1 = r.0->Some_0.kids;
+        assert(k1.len() == rest_kids.len() + 1);
+        if m == n {
+            assert(i < s.kids.len());
+            assert(base.name == n);
+            match content { Some(p) => { lemma_build_kids_len(base, p, Seq::empty()); }, None => {} }
+            assert(k1[rest_kids.len() as int].val().name == n);
+            lemma_g_has_witness(k1, m, rest_kids.len() as int);
+        } else {
+            assert(j != i);
+            let jj = if i < s.kids.len() && j > i { j - 1 } else { j };
+            assert(rest_kids[jj] == s.kids[j]);
+            assert(k1[jj] == rest_kids[jj]);
+            lemma_g_has_witness(k1, m, jj);
+        }
+    }
+}
+pub proof fn lemma_tag_opt_names(s: GEl, n: String, snap: Map<String, u32>, m: String)
+    ensures g_has(s.kids, m) ==> g_has(g_tag_opt(s, n, snap).kids, m),
+{
+    if g_has(s.kids, m) {
+        lemma_g_has_index(s.kids, m);
+        let j = g_idx(s.kids, m);
+        let k1 = g_tag_opt(s, n, snap).kids;
+        assert(k1.len() == s.kids.len());
+        assert(k1[j].val().name == m);
+        lemma_g_has_witness(k1, m, j);
+    }
+}
+/// a successful build never drops a child NAME of the node it builds below
+pub proof fn lemma_build_names(s: GEl, p: Seq<RdItem>, known: Seq<String>, m: String)
+    ensures g_build(s, p, known).0 is Some && g_has(s.kids, m) ==> g_has(g_build(s, p, known).0->Some_0.kids, m),
+    decreases p.len()
+{
+    if p.len() > 0 && g_has(s.kids, m) {
+        let rest = p.drop_first();
+        match p[0] {
+            RdItem::Err => {},
+            RdItem::Ev(AbsEv::Eof) => {},
+            RdItem::Ev(AbsEv::End) => {},
+            RdItem::Ev(AbsEv::Comment) => { lemma_build_names(s, rest, known, m); },
+            RdItem::Ev(AbsEv::Decl) => { lemma_build_names(s, rest, known, m); },
+            RdItem::Ev(AbsEv::PI) => { lemma_build_names(s, rest, known, m); },
+            RdItem::Ev(AbsEv::DocType) => { lemma_build_names(s, rest, known, m); },
+            RdItem::Ev(AbsEv::Text(b)) => { if utf8_ok(b) { lemma_build_names(GEl { text_some: true, ..s }, rest, known, m); } },
+            RdItem::Ev(AbsEv::CData(b)) => { if utf8_ok(b) { lemma_build_names(GEl { text_some: true, ..s }, rest, known, m); } },
+            RdItem::Ev(AbsEv::Empty(t)) => {
+                if g_tag_ok(t) {
+                    let r = g_parse_tag(s, t, known, None);
+                    if r.0 is Some {
+                        let s1 = r.0->Some_0;
+                        lemma_parse_tag_names(s, t, known, None, m);
+                        let s2 = g_tag_opt(s1, utf8_str(t.name), Map::empty());
+                        lemma_tag_opt_names(s1, utf8_str(t.name), Map::empty(), m);
+                        lemma_build_names(s2, rest, r.1, m);
+                    }
+                }
+            },
+            RdItem::Ev(AbsEv::Start(t)) => {
+                if g_tag_ok(t) {
+                    let cc = g_count_children(s, utf8_str(t.name));
+                    let r = g_parse_tag(s, t, known, Some(rest));
+                    if r.0 is Some {
+                        let s1 = r.0->Some_0;
+                        lemma_parse_tag_names(s, t, known, Some(rest), m);
+                        let s2 = if cc.1 { g_tag_opt(s1, utf8_str(t.name), cc.0) } else { s1 };
+                        lemma_tag_opt_names(s1, utf8_str(t.name), cc.0, m);
+                        if r.2.len() < p.len() { lemma_build_names(s2, r.2, r.1, m); }
+                    }
+                }
+            },
+        }
+    }
+}
+
 } // verus!
